@@ -514,6 +514,20 @@ theorem C41_reload_accepted_replaces (certs : List (String × List String)) (ca 
   unfold loadStep
   simp [h]
 
+/-- **An accepted configuration names every host once, whatever the spelling.**  Two products cannot both claim a host name,
+    not even in different letter case (the loader's duplicate test folds case since the repair) — so the lower-cased keys
+    that `TLSServerRuleMap.Update` stores never collide and `C41_rule_lookup`'s uniqueness hypothesis is what the loader
+    guarantees. -/
+theorem C41_loader_names_unique (certs : List (String × List String)) (ca : List String) (ps : List ProdConf)
+    (h : validConf certs ca (.products ps) = true) :
+    nodupB ((ps.flatMap fun p => p.snis).map lowerAscii) = true := by
+  have hf : sniConfDuplicateCheckFoldsCase = true := by decide
+  unfold validConf at h
+  simp only [Bool.and_eq_true] at h
+  have := h.1.1.2
+  unfold sniDupKey at this
+  simpa [hf] using this
+
 /-- **Only the last accepted configuration matters**, step by step over any history of reloads; hence every rule / certificate
     lookup and every negotiation (`ruleTableOf`, `certTableOf`, `serve`) after the history is a function of that
     configuration alone. -/
